@@ -16,13 +16,13 @@ def main(tier, replay=None):
     res.run_parallel([("%s %d %d %d" % (exe, 8 if q else 10, i, n), "addbounce text [shard %d/%d]" % (i, n)) for i in range(n)])
     M = "monitors=C14,C02"
     fams = [
-        dict(name="subsets-and-orders-l3", opts=[M, "msgs=l3", "concl=3", "signals=0", "verdicts=KDF", "reorder=3"], bounds="0,0,0,3", total=3),
-        dict(name="chain-bounce-double-discard", opts=[M, "msgs=l1r1", "signals=0", "verdicts=KD", "reorder=2"], bounds="0,0,0,%d" % (3 if q else 4), total=4),
-        dict(name="senders-verp-empty-dbl", opts=[M, "msgs=verp+empty+dbl", "signals=0", "verdicts=KD", "reorder=1"], bounds="0,0,0,%d" % (3 if q else 4), total=4),
-        dict(name="virtual-domain-recipients", opts=[M, "msgs=v1", "signals=0", "verdicts=KDF", "reorder=2"], bounds="0,0,0,2", total=2),
-        dict(name="catch-all-and-exception-domains", opts=[M, "msgs=r2+v1", "catchall=1", "signals=0", "verdicts=KD", "reorder=2"], bounds="0,0,0,2", total=2),
-        dict(name="expired-deferrals", opts=[M, "msgs=l2", "lifetime=50", "signals=0", "verdicts=KZD", "reorder=1"], bounds="0,0,0,%d" % (3 if q else 4), total=4),
-        dict(name="bounce-with-crash", opts=[M, "msgs=l2", "signals=0", "verdicts=KD", "reorder=1"], bounds="0,0,1,2", total=3, deadline=900),
+        dict(name="subsets-and-orders-l3", opts=[M, "msgs=l3", "concl=3", "signals=0", "verdicts=KDF", "reorder=3"], bounds="0,0,0,%d" % (3 if q else 4), total=4, deadline=2400, qcap=0 if q else 4000000),
+        dict(name="chain-bounce-double-discard", opts=[M, "msgs=l1r1", "signals=0", "verdicts=KD", "reorder=2"], bounds="0,0,0,%d" % (3 if q else 5), total=5, deadline=2400, qcap=0 if q else 4000000),
+        dict(name="senders-verp-empty-dbl", opts=[M, "msgs=verp+empty+dbl", "signals=0", "verdicts=KD", "reorder=1"], bounds="0,0,0,%d" % (3 if q else 5), total=5, deadline=2400, qcap=0 if q else 4000000),
+        dict(name="virtual-domain-recipients", opts=[M, "msgs=v1", "signals=0", "verdicts=KDF", "reorder=2"], bounds="0,0,0,%d" % (2 if q else 4), total=4, deadline=2400),
+        dict(name="catch-all-and-exception-domains", opts=[M, "msgs=r2+v1", "catchall=1", "signals=0", "verdicts=KD", "reorder=2"], bounds="0,0,0,%d" % (2 if q else 3), total=3, deadline=2400),
+        dict(name="expired-deferrals", opts=[M, "msgs=l2", "lifetime=50", "signals=0", "verdicts=KZD", "reorder=1"], bounds="0,0,0,%d" % (3 if q else 5), total=5, deadline=2400, qcap=0 if q else 4000000),
+        dict(name="bounce-with-crash", opts=[M, "msgs=l2", "signals=0", "verdicts=KD", "reorder=1"], bounds="0,0,1,%d" % (2 if q else 3), total=3 if q else 4, deadline=2400),
     ]
     run_families(res, "C14", tier, fams)
     res.rule = ("text: every failure text over {a,LF,<,>,:} up to the bound x a recipient pool (newlines, virtual prefixes, near misses) through the real "
